@@ -13,6 +13,7 @@ type file struct {
 	child *file
 	path  string
 	docs  []*Document
+	depth int
 }
 
 func (p *Parser) loadFile(path string, child *file) (*file, error) {
@@ -24,6 +25,11 @@ func (p *Parser) loadFile(path string, child *file) (*file, error) {
 
 	if child != nil {
 		f.id = fmt.Sprintf("%s|%s", child.id, f.id)
+		f.depth = child.depth + 1
+	}
+
+	if f.depth > 1000 {
+		return nil, fmt.Errorf("%s: $parent chain too deep: %w", path, ErrCircularRef)
 	}
 
 	p.log("[%s] loading", f)
